@@ -84,7 +84,7 @@ def assumption_scan(text):
 _VERUS_CACHE = {}
 
 
-def verus_part(unit_name, threads=16, rlimit=200, builder_kwargs=None, tag=''):
+def verus_part(unit_name, threads=16, rlimit=200, builder_kwargs=None, tag='', ignore_baseline=False):
     key = (unit_name, tag, json.dumps(builder_kwargs or {}, sort_keys=True))
     if key in _VERUS_CACHE:
         return _VERUS_CACHE[key]
@@ -101,7 +101,7 @@ def verus_part(unit_name, threads=16, rlimit=200, builder_kwargs=None, tag=''):
         return pr
     # census against the committed baseline
     bpath = os.path.join(ROOT, 'contracts', unit_name, 'baseline.json')
-    baseline = json.load(open(bpath)) if os.path.exists(bpath) else None
+    baseline = json.load(open(bpath)) if (os.path.exists(bpath) and not ignore_baseline) else None
     res = run_verus(unit, rlimit=rlimit, threads=threads, tag=tag)
     pr.cmd = res.cmd
     pr.info = dict(unit=unit_name, woven_file=res.file, woven_sha256=res.sha, sources=unit.sources,
